@@ -4,7 +4,7 @@
 set -e
 SRC=/repo/nexosim/src
 DST=/verif/harness/atomh/src
-mkdir -p $DST/util $DST/channel $DST/executor/task
+mkdir -p $DST/util $DST/channel $DST/executor/task $DST/ports/output
 sync_one() { # copy only when different so that cargo does not rebuild needlessly
   if ! cmp -s "$1" "$2"; then cp "$1" "$2"; fi
 }
@@ -13,3 +13,5 @@ for f in util/priority_queue.rs util/indexed_priority_queue.rs util/sync_cell.rs
          executor/task/promise.rs executor/task/runnable.rs executor/task/util.rs; do
   sync_one $SRC/$f $DST/$f
 done
+sync_one $SRC/ports/output/broadcaster.rs $DST/ports/output/broadcaster.rs
+python3 /verif/tools/extract_sender.py $DST/ports/output/sender.rs
